@@ -70,7 +70,7 @@ def build(stream, p):
     if stream == "find_user":
         k, table = p["k"], p["table"]
         call = enc_call(38, k, table)
-        impl = lambda: guard(lambda: dsw.find_vertices(observed_length=k, bio_filter=gen.TableFilter(k, table)),
+        impl = lambda: guard(lambda: dsw.find_vertices(observed_length=k, bio_filter=gen.table_filter(k, table)),
                              lambda r: [[int(x) for x in r]])
         want = table
         filt = lambda s: bool(table[sum(NUC.index(c) * 4 ** (k - 1 - i) for i, c in enumerate(s))])
@@ -115,8 +115,14 @@ def build(stream, p):
     k, mask = p["k"], p["mask"]
     arr = np.array(mask, dtype=bool if p["dtype"] == "bool" else int)
     call = enc_call(39, k, mask)
-    impl = lambda: guard(lambda: dsw.connect_valid_graph(observed_length=k, vertices=arr),
-                         lambda r: [[int(x) for x in r.reshape(-1)]])
+    def run_twice():
+        # the caller owns the returned accessor (the library's own remove_nasty_arc edits accessors in place): overwrite it,
+        # then build the graph again from an equal mask
+        first = dsw.connect_valid_graph(observed_length=k, vertices=arr)
+        if isinstance(first, np.ndarray) and first.flags.writeable and first.size:
+            first[...] = -1
+        return dsw.connect_valid_graph(observed_length=k, vertices=np.array(mask, dtype=arr.dtype))
+    impl = lambda: guard(run_twice, lambda r: [[int(x) for x in r.reshape(-1)]])
 
     def oracle(ans, raw):
         if not any(mask):
